@@ -800,7 +800,8 @@ func (p *c16) Corpus() []any {
 	}
 	// classic hostile names
 	for _, n := range []string{"c/../../etc/passwd", "c//etc/passwd", "c\\..\\..\\x", "c/c:/x", "c/C:\\x", "/c/x", "c", "c/", "c/.", "c/a/..",
-		"c/..a", "Chart.yaml/x", "c/./a/../b", "c\\a/b", "c/a\\b", "../c/x", "./c/x", "c/a/", "c/日本/ü", "c/...", "c/a//b", "c/c:", "c/c:x"} {
+		"c/..a", "Chart.yaml/x", "c/./a/../b", "c\\a/b", "c/a\\b", "../c/x", "./c/x", "c/a/", "c/日本/ü", "c/...", "c/a//b", "c/c:", "c/c:x",
+		"c/C:/x", "c/Z:/", "c/z:/x", "c\\C:\\x", "c/a/../C:/x", "c/1:/x", "c/cc:/x"} {
 		out = append(out, c16Case{Kind: "arch", MaxTotal: 10000, MaxFile: 1000, Ents: []c16Ent{c16Chart("c"), reg(n, "data")}})
 	}
 	// symlink / hardlink / device entries, with and without a declared size
